@@ -175,9 +175,7 @@ PenFailing(r) ==
        THEN f \cup {"ZONE_SeparatingNotMinimal"}   \* fourth named pattern: the vector separates exactly (TouchAfterMTV holds) but is longer than the depth
   ELSE IF f # {} /\ r.algo = "mpr" /\ r.coincident /\ f \subseteq {"ContactInBoth"}
        THEN f \cup {"ZONE_CoincidentCentres"}      \* second named pattern: both colliders sit at the same frame origin
-  ELSE IF f # {} /\ r.algo = "mpr" /\ f \subseteq {"ContactInBoth"} /\ ((r.exact /\ r.fc = 0) \/ (~r.exact /\ ~r.deep))
-       THEN f \cup {"ZONE_Grazing"}                \* third named pattern: touching pair (certified depth 0) / no deep witness
-       ELSE f
+       ELSE f      \* (a third pattern, touching pairs with a contact position outside the colliders, was the aliased portal swap: repaired)
 
 (* ---------------- relations between queries (C12): kind = "pair" ----------------
    two runs of the same query on related scenes: rel = "swap" (arguments exchanged), "rigid" (one rigid motion
